@@ -299,7 +299,20 @@ func (g *gen) step() bool {
 			}
 			switch x := p.val.(type) {
 			case *zn.ListV:
-				switch g.pick(6, "lm") {
+				switch g.pick(8, "lm") {
+				case 6, 7:
+					// a NUMBER item changed in place (自增 / 自减): the item of this list only
+					var idx []int
+					for i, it := range x.Items {
+						if _, isNum := it.(float64); isNum {
+							idx = append(idx, i+1)
+						}
+					}
+					if len(idx) > 0 {
+						i := idx[g.pick(len(idx), "ni")]
+						add(&zn.ExprStmt{E: mc(&zn.Index{Root: p.expr, Idx: num(float64(i))}, []string{"自增", "自减"}[g.pick(2, "incdec")], num(float64(1+g.pick(9, "nd"))))})
+						g.labels["number-item-changed-in-place"] = true
+					}
 				case 0:
 					add(&zn.ExprStmt{E: mc(p.expr, "后增", g.scalar())})
 				case 1:
@@ -319,7 +332,19 @@ func (g *gen) step() bool {
 				}
 				g.labels["mutate-list"] = true
 			case *zn.DictV:
-				switch g.pick(3, "dm") {
+				switch g.pick(4, "dm") {
+				case 3:
+					var ks []string
+					for _, k := range x.Keys {
+						if _, isNum := x.M[k].(float64); isNum {
+							ks = append(ks, k)
+						}
+					}
+					if len(ks) > 0 {
+						k := ks[g.pick(len(ks), "nk")]
+						add(&zn.ExprStmt{E: mc(&zn.Index{Root: p.expr, Idx: &zn.Str{V: k}}, "自增", num(float64(1+g.pick(9, "nd"))))})
+						g.labels["number-item-changed-in-place"] = true
+					}
 				case 0:
 					add(&zn.ExprStmt{E: mc(p.expr, "写入", &zn.Str{V: []string{"a", "z"}[g.pick(2, "wk")]}, g.scalar())})
 				case 1:
@@ -406,7 +431,12 @@ func (g *gen) step() bool {
 			}
 			return out
 		}
-		switch g.pick(4, "unbound") {
+		switch g.pick(6, "unbound") {
+		case 4, 5:
+			// a NUMBER literal handed straight to a method that changes its input in place;
+			// the same spelling evaluated again afterwards still denotes the number
+			lit = num(float64(7300 + g.pick(3, "numlit")))
+			use = show("num-arg", &zn.Call{Name: "增", Args: []zn.Expr{lit, v(iv)}}, &zn.Bin{Op: "+", L: lit, R: num(0)})
 		case 0:
 			lit = &zn.ListLit{Items: consts()}
 			use = show("arg", &zn.Call{Name: "改", Args: []zn.Expr{lit, v(iv)}})
@@ -444,6 +474,7 @@ func TestCopySemantics(t *testing.T) {
 			}},
 			&zn.FuncDef{Name: "改", Params: []string{"表", "项"}, Body: []zn.Stmt{&zn.ExprStmt{E: mc(v("表"), "后增", v("项"))}, &zn.Return{E: v("表")}}},
 			&zn.FuncDef{Name: "改典", Params: []string{"典", "项"}, Body: []zn.Stmt{&zn.ExprStmt{E: mc(v("典"), "写入", &zn.Str{V: "k"}, v("项"))}, &zn.Return{E: v("典")}}},
+			&zn.FuncDef{Name: "增", Params: []string{"数", "项"}, Body: []zn.Stmt{&zn.ExprStmt{E: mc(v("数"), "自增", v("项"))}, &zn.Return{E: v("数")}}},
 			&zn.FuncDef{Name: "新表", Body: []zn.Stmt{&zn.Return{E: &zn.ListLit{Items: []zn.Expr{num(7)}}}}},
 			&zn.Let{Names: []string{"V0"}, E: &zn.ListLit{Items: []zn.Expr{num(1), &zn.ListLit{Items: []zn.Expr{num(2), num(3)}}, &zn.DictLit{Keys: []string{"a"}, Vals: []zn.Expr{&zn.ListLit{Items: []zn.Expr{num(4)}}}}}}},
 		}}
